@@ -642,7 +642,7 @@ func CountedCalls(p *grl.Program) (map[string]string, map[string][]*grl.Path) {
 			return
 		}
 		if e.K == "call" {
-			if sig, ok := grl.Methods[e.Fn]; ok && !sig.Mutator && len(e.Path.Steps) == 0 {
+			if sig, ok := grl.Methods[e.Fn]; ok && !sig.Mutator && len(e.Path.Steps) == 0 && e.Fn != "Boom" && e.Fn != "BoomErr" { // a method that panics yields nothing to remember
 				key := e.Path.Root + "." + e.Fn
 				if texts[key] == nil {
 					texts[key] = map[string]*grl.Expr{}
